@@ -1037,7 +1037,9 @@ class HistGen:
         popts = rng.choice((P_ONLY, 0, P_ONLY | P_OPAQ, P_STRICT))
         if self.stream != "opaq":
             popts &= ~P_OPAQ
-        self.emit("parse:subtree", O("pinp", s, inst_path(par) or "@%d" % rng.randrange(20), fmt, popts, rng.choice((0, V_PRESENT)), d.encode("utf-8", "surrogateescape")))
+        # F64: full validation (no LYD_VALIDATE_PRESENT) of a subtree parse leaks the implicit top-level nodes when it fails - seed only
+        vopts = 0 if popts & P_ONLY else V_PRESENT
+        self.emit("parse:subtree", O("pinp", s, inst_path(par) or "@%d" % rng.randrange(20), fmt, popts, vopts, d.encode("utf-8", "surrogateescape")))
 
     def g_roundtrip(self):
         rng = self.rng
@@ -1103,6 +1105,11 @@ class HistGen:
             self.emit("new_path:%s:%s" % (sn.kind, "badval" if bad_val else "ok"), O("np", s, opts, path, val))
         else:
             par = self.nsel(s) if s in self.known else None
+            dp = sn.data_parent()
+            if dp is not None and rng.random() < 0.5:
+                # relative path from an instance of the schema parent
+                par = self.nsel(s, lambda i: i.sn is dp, "@")
+                path = path.rsplit("/", 1)[1] if "/" in path else path
             self.emit("new_path2:%s" % sn.kind, O("np2", s, par, opts, path, val if val is not None else "", rng.randrange(1, 4)))
         self.known.setdefault(s, self.known.get(s, []))
 
@@ -1405,11 +1412,15 @@ class HistGen:
         p = self.schema_data_path(sn)
         plain = self.schema_data_path(sn, last_pred=False)
         good = [p, plain, plain + "/*", "/" + plain.split("/")[1] + "//*", "count(%s) > 1" % plain, "%s[1]" % plain, "%s[last()]" % plain, "//" + sn.name,
-                "%s | %s" % (plain, "/" + plain.split("/")[1]), "string(%s)" % plain, "..", ".", "*", "//*[. = 'a']", "%s/.." % plain, "boolean(%s)" % plain,
-                "%s[. > 2]" % plain, "name(%s)" % plain, "deref(%s)" % plain, "current()/..", "re-match(string(%s), '[a-z]+')" % plain, "descendant-or-self::node()",
-                "%s/ancestor::*" % plain, "%s/following-sibling::*" % plain, "%s[position() mod 2 = 1]" % plain, "sum(%s) + 1" % plain, "not(%s)" % plain]
+                "%s | %s" % (plain, "/" + plain.split("/")[1]), "..", ".", "*", "%s/.." % plain, "boolean(%s)" % plain, "current()/..", "descendant-or-self::node()",
+                "%s/ancestor::*" % plain, "%s/following-sibling::*" % plain, "%s[position() mod 2 = 1]" % plain, "not(%s)" % plain, "count(%s/*) + 1" % plain,
+                "%s/preceding-sibling::*[1]" % plain, "/*", "self::node()", "true() and %s" % plain, "(%s)[2]" % plain]
+        # node-set -> string casts (`. = 'a'`, string(), sum(), re-match()) and deref() of other than leafref / instance-identifier leaves are
+        # left to the XPath property (UB in cast_string_recursive with empty values; deref() reads the value union as a path): not ownership matters
+        if sn.kind in ("leaf", "leaf-list") and self.values.base(sn) in ("leafref", "instance-identifier"):
+            good.append("deref(%s)" % plain)
         bad = [plain + "/[", "//", "count(", "/nomod:x", "1 +", plain + "[k='a'", "foo()", "$var", ")", plain + "[.=]", "", "/" + sn.name, plain + "/nosuch",
-               "string(1, 2)", "'unterminated", "count(1)", "1 div", "..//", "%s[", "deref()"]
+               "count(1, 2)", "'unterminated", "count(1)", "1 div", "..//", "%s[", "deref()"]
         return good, bad
 
     def g_find(self):
@@ -1590,6 +1601,33 @@ def seed_f60():
     return 0, 0, [O("np", 0, 0, "/lfa:c/ax", "aaa"), O("np", 0, NP_UPDATE, "/lfa:c/ax", "bbb"), O("pr", 0, 0, 0)]
 
 
+def seed_f61():
+    """lyd_insert_sibling(sibling, node) where node is the first sibling of `sibling`"""
+    return 0, FORCE_LSAN, [O("px", 0, 0, P_ONLY, 0, '<c xmlns="urn:lfa"><ksl><s1>a</s1><s2>1</s2></ksl></c>'), O("is", 0, "/lfa:c/ksl[1]/s2", 0, "/lfa:c/ksl[1]/s1", 1)]
+
+
+def seed_f62():
+    """LYD_VALIDATE_MULTI_ERROR: the parser goes on after an error; the subtree under construction is lost"""
+    return 2, FORCE_LSAN, [O("px", 0, 0, 0, V_PRESENT | V_MULTI, '<r xmlns="urn:lfd"><a><n>-2147483645</n><b><x>2</x><y>lo')]
+
+
+def seed_f63():
+    """LY_CTX_LEAFREF_LINKING: freeing a tree with several leafref links"""
+    doc = ('{"lfb:sys":{"name":"on","if":[{"name":"a","idx":1}],"ref":"a","lfc:rt":[{"dst":"on","pfx":32,"via":"a"},{"dst":"x","pfx":1,"via":"a"},'
+           '{"dst":"y","pfx":2,"via":"a"},{"dst":"z","pfx":3,"via":"a"},{"dst":"w","pfx":4,"via":"a"}]},"lfc:cfg":{"mode":"a"}}')
+    return 1, 0x400 | 4, [O("px", 1, 1, 0, V_PRESENT, doc)]
+
+
+def seed_f64():
+    """lyd_parse_data() with a parent and full validation that fails: implicit top-level nodes made by the validation are lost"""
+    return 0, FORCE_LSAN, [O("px", 2, 0, P_ONLY, 0, '<c xmlns="urn:lfa"><li><k>b</k><ic><x>on</x></ic></li></c>'), O("pinp", 2, "/lfa:c/li[k='b']/ic", 1, P_STRICT, 0, "{}")]
+
+
+def seed_f65():
+    """a failing XML print (anydata node with a string value) does not release the namespace sets of the printer"""
+    return 0, FORCE_LSAN, [O("px", 4, 0, P_ONLY, 0, '<c xmlns="urn:lfa"><ad><x/></ad></c>'), O("acs", 4, "/lfa:c/ad", 3, '{"a":1}', 1), O("pr", 4, 0, 0)]
+
+
 def hist_line(i, set_idx, ctxopts, ops):
     return "%d life hist %d %d %s" % (i, set_idx, ctxopts, ";".join(ops))
 
@@ -1661,6 +1699,38 @@ def _only_failed_yin_witness(line):
     return len(ops) == 1 and ops[0][0] == "yinself" and ops[0][2] == [hexs("yang"), "1"]
 
 
+def _ops_with(line, names, pred):
+    for name, args, raw in decode_ops(line):
+        if name in names:
+            try:
+                if pred(name, raw):
+                    return True
+            except (ValueError, IndexError):
+                pass
+    return False
+
+
+def _has_multierr_parse(line):
+    vo = {"px": 3, "pin": 3, "pinp": 4, "rt": 5}
+    return _ops_with(line, vo, lambda n, r: int(r[vo[n]]) & V_MULTI)
+
+
+def _has_full_validation_subparse(line):
+    return _ops_with(line, ("pinp",), lambda n, r: not (int(r[3]) & P_ONLY) and not (int(r[4]) & V_PRESENT))
+
+
+def _ctxopts(line):
+    t = line.split()
+    return int(t[4]) if len(t) > 4 and t[4].isdigit() else 0
+
+
+UB_SIGNATURES = [
+    # (finding, function of frame #0, fragment of the UBSan message)
+    ("F66", "lyht_dup_inst_ht_equal_cb", "applying zero offset to null pointer"),
+    ("F67", "lyd_diff_userord_attrs", "applying non-zero offset"),
+]
+
+
 def classify(component, what, case):
     """id of the known finding this failing case is an instance of, or None.  Deliberately narrow: a different leak /
     use-after-free must stay unclassified."""
@@ -1671,6 +1741,11 @@ def classify(component, what, case):
         err = case.get("stderr", "")
         m = re.search(r"VERIF ERROR: AddressSanitizer: (\S+) frames=(\S*)(?: freedby=(\S*))?", err)
         if not m:
+            u = re.search(r"runtime error: ([^\n]*)\n(?:[^\n]*\n){0,3}?\s*#0 0x[0-9a-f]+ in (\S+)", err)
+            if u:
+                for fid, fn, frag in UB_SIGNATURES:
+                    if u.group(2) == fn and frag in u.group(1):
+                        return fid
             return None
         kind, frames, freedby = m.group(1), m.group(2).split(","), (m.group(3) or "").split(",")
         if kind == "heap-use-after-free" and _has_f19_op(line) and "lyd_hash_table_val_equal" in frames and \
@@ -1680,9 +1755,32 @@ def classify(component, what, case):
         if kind == "heap-use-after-free" and _has_f60_op(line) and "tmp_free" in freedby:
             # the library kept the caller's value pointer of a lyd_new_path(UPDATE) on an existing anydata/anyxml node
             return "F60"
+        if kind == "heap-use-after-free" and _has_multierr_parse(line) and "lyd_validate_unres" in frames and \
+                any(f.startswith(("lydxml_", "lydjson_", "lyd_parse")) for f in freedby):
+            return "F62"
+        if kind == "heap-use-after-free" and (_ctxopts(line) & 0x400) and any(f.startswith("lyd_free_leafref") for f in frames[:3]):
+            return "F63"
         return None
-    if _only_failed_yin_witness(line) and what.startswith(("failed schema load changed the dictionary", "dictionary warning at ly_ctx_destroy", "memory leak")):
+    rep = case.get("reply") or ""
+    lk = re.search(r"leakat=(\S+)", rep)
+    leakat = lk.group(1) if lk else "-"
+    law = re.search(r"\[(\w+)=", what)
+    law = law.group(1) if law else ("sfail" if what.startswith("failed schema load") else "")
+    if _only_failed_yin_witness(line) and law in ("sfail", "warn", "leak"):
         return "F21"
+    if law == "eint" and _has_f19_op(line):
+        # second face of F19: the double insertion / the removal of the stale record fails inside the hash table code
+        return "F19"
+    if law in ("integ", "leak", "drec", "dref", "warn") and _ops_with(line, ("is",), lambda n, r: len(r) > 4 and r[4] == "1"):
+        return "F61"
+    if law in ("drec", "dref", "mid", "warn", "leak") and _has_multierr_parse(line) and \
+            (law != "leak" or leakat.startswith(("lyd_create_", "lyd_parser_", "lydxml_", "lydjson_", "lyd_new_implicit", "ly_set_", "-"))):
+        return "F62"
+    if law == "leak" and leakat.startswith(("lyd_create_", "lyd_new_implicit")) and _has_full_validation_subparse(line):
+        return "F64"
+    if law in ("leak", "eint") and _ops_with(line, ("ac", "acs"), lambda n, r: len(r) > 4 and r[4] == "1") and \
+            (law == "eint" or leakat in ("ly_set_add", "xml_print_ns", "-")):
+        return "F65"
     return None
 
 
@@ -1801,10 +1899,8 @@ def run_life(cx, workers=None):
             "failing library call")
 
     hist = []       # (set, ctxopts, ops, kinds, stream)
-    for s in (seed_f19(), seed_f19_key(), seed_f60()):
+    for s in (seed_f19(), seed_f19_key(), seed_f21(), seed_f60(), seed_f61(), seed_f62(), seed_f63(), seed_f64(), seed_f65()):
         hist.append((s[0], s[1], s[2], ["seed"] * len(s[2]), "seed"))
-    s = seed_f21()
-    hist.append((s[0], s[1], s[2], ["seed"], "seed"))
     hist += exhaustive_small(gen)
     n = int(os.environ.get("VERIF_LIFE_N", "0")) or cx.n(2200, 60000)
     for i in range(n):
